@@ -14,9 +14,17 @@ def prog(rng, alphabet, n, fresh):
     return ops
 
 class Fresh:
+    """fresh element values; now and then one of the unusual element kinds of the driver (901..908: typed nil pointer / map /
+    chan / func, empty struct, empty string, zero int, nil slice), each at most once per scenario"""
+    SPECIAL = list(range(901, 909))
+    rng = None
     def __init__(self, start):
         self.n = start
+        self.left = list(Fresh.SPECIAL)
     def __call__(self):
+        r = Fresh.rng
+        if r is not None and self.left and r.random() < 0.12:
+            return self.left.pop(r.randrange(len(self.left)))
         self.n += 1
         return self.n
 
@@ -53,6 +61,7 @@ def gen_lag_sweep(tier, rng, prefix="s", mode=None, pats=None):
 
 def gen_family(rng, prefix, kind, alphabet, count, nthreads, nops, mode, prefill_max=2, iter_threads=0, opts=None, script=None):
     out = []
+    Fresh.rng = rng
     for i in range(count):
         npre = rng.randint(0, prefill_max)
         pre = list(range(1, npre + 1))
@@ -167,6 +176,19 @@ def gen_c19_queue(tier, rng):
     s += gen_family(rng, "a", "mutex", ALL, scale(tier, 16, 120), 2, [2, 3], "dfs 2 %d" % scale(tier, 3000, 40000))
     s += gen_family(rng, "b", "mutex", ALL, scale(tier, 8, 60), 3, [1, 2], "dfs 2 %d" % scale(tier, 3000, 40000))
     s += gen_family(rng, "c", "mutex", ALL, scale(tier, 10, 100), [3, 4], [2, 3, 4], lambda r: "rand %d %d" % (scale(tier, 300, 3000), r.randint(1, 1 << 30)))
+    return s
+
+def fine_c13(tier, rng):
+    """statement-level interleavings of traversals with Remove / Poll (monitors only): the plain fields of a node
+    (its value) and of an iterator are read next to atomic loads without a scheduling point in the sync-level build"""
+    s = []
+    s += gen_family(rng, "fi", "jdk", ["p", "o", "p"], scale(tier, 14, 100), [2, 3], [2, 3], lambda r: "rand %d %d" % (scale(tier, 400, 4000), r.randint(1, 1 << 30)), prefill_max=4, iter_threads=1)
+    for i in range(scale(tier, 10, 80)):
+        npre = rng.choice([2, 3, 4])
+        a = ["i"] + [rng.choice(["n", "n", "r"]) for _ in range(rng.choice([3, 4]))]
+        b = ["i"] + [rng.choice(["n", "h", "n"]) for _ in range(rng.choice([3, 4]))]
+        ths = [a, b] + ([["p", "k"]] if rng.random() < 0.5 else [])
+        s.append(conc.Scn("fj%d" % i, "jdk", list(range(1, npre + 1)), ths, "rand %d %d" % (scale(tier, 400, 4000), rng.randint(1, 1 << 30))))
     return s
 
 def fine_c01(tier, rng):
